@@ -8,6 +8,7 @@ from .env import *
 from ..utils import *
 
 from amoco.cas.utils import *
+from copy import copy as _copy
 
 # ------------------------------------------------------------------------------
 # helpers and decorators :
@@ -31,6 +32,14 @@ def __npc(i_xxx):
 
 def trap(ins, fmap, trapname):
     fmap.internals["trap"] = trapname
+
+
+def _signed(fmap, r):
+    "value of r in fmap, flagged signed (on a copy: r may be a shared register object)"
+    v = fmap(r)
+    if v is r:
+        v = _copy(r)
+    return v.signed()
 
 
 # i_xxx is the translation of RISC-V instruction xxx.
@@ -160,8 +169,8 @@ def i_XORI(ins, fmap):
 def i_SLT(ins, fmap):
     dst, rs1, rs2 = ins.operands
     if dst is not zero:
-        _t = rs1 < rs2
-        fmap[dst] = fmap(tst(_t, cst(1, 32), cst(0, 32)))
+        _t = _signed(fmap, rs1) < _signed(fmap, rs2)
+        fmap[dst] = tst(_t, cst(1, 32), cst(0, 32)).simplify()
 
 
 @__npc
@@ -176,8 +185,8 @@ def i_SLTU(ins, fmap):
 def i_SLTI(ins, fmap):
     dst, rs1, rs2 = ins.operands
     if dst is not zero:
-        _t = rs1 < rs2
-        fmap[dst] = fmap(tst(_t, cst(1, 32), cst(0, 32)))
+        _t = _signed(fmap, rs1) < _signed(fmap, rs2)
+        fmap[dst] = tst(_t, cst(1, 32), cst(0, 32)).simplify()
 
 
 @__npc
@@ -246,11 +255,11 @@ def i_LUI(ins, fmap):
         fmap[dst] = fmap(src1)
 
 
-@__npc
 def i_AUIPC(ins, fmap):
     dst, src1 = ins.operands
     if dst is not zero:
         fmap[dst] = fmap(pc + src1)
+    fmap[pc] = fmap(pc) + ins.length
 
 
 def i_JAL(ins, fmap):
@@ -264,7 +273,7 @@ def i_JALR(ins, fmap):
     dst, src1, imm = ins.operands
     if dst is not zero:
         fmap[dst] = fmap(pc + ins.length)
-    fmap[pc] = fmap(src1 + imm)
+    fmap[pc] = fmap((src1 + imm) & cst(-2, 32))
 
 
 def i_BEQ(ins, fmap):
@@ -279,7 +288,8 @@ def i_BNE(ins, fmap):
 
 def i_BLT(ins, fmap):
     r1, r2, imm = ins.operands
-    fmap[pc] = fmap(tst(r1 < r2, pc + imm, pc + ins.length))
+    _t = _signed(fmap, r1) < _signed(fmap, r2)
+    fmap[pc] = tst(_t, fmap(pc + imm), fmap(pc + ins.length)).simplify()
 
 
 def i_BLTU(ins, fmap):
@@ -289,7 +299,8 @@ def i_BLTU(ins, fmap):
 
 def i_BGE(ins, fmap):
     r1, r2, imm = ins.operands
-    fmap[pc] = fmap(tst(r1 >= r2, pc + imm, pc + ins.length))
+    _t = _signed(fmap, r1) >= _signed(fmap, r2)
+    fmap[pc] = tst(_t, fmap(pc + imm), fmap(pc + ins.length)).simplify()
 
 
 def i_BGEU(ins, fmap):
